@@ -836,7 +836,7 @@ func c8Run(c *C) {
 	if !c.Failed() {
 		c8TwinTypes(c, r)
 	}
-	if !c.Failed() && c.Idx%100 == 57 {
+	if !c.Failed() && ((!c.Thorough() && c.Idx%100 == 57) || c.Idx%1000 == 57) {
 		c8ConcurrentReceivers(c)
 	}
 }
@@ -893,7 +893,7 @@ func c8ConcurrentReceivers(c *C) {
 	}
 	iters := 1500
 	if c.Thorough() {
-		iters = 10000
+		iters = 4000
 	}
 	var wg sync.WaitGroup
 	var mu sync.Mutex
